@@ -315,7 +315,9 @@ func constsCompare(r *runner, f *cfFacts) {
 			continue
 		}
 		failing := ""
-		if want == "error" && got != "error" {
+		// a failing input only if the compiled package itself shows it (an Info without a table was returned);
+		// "ok" with a table, against a translator row that lists none, is a disagreement with the translator
+		if want == "error" && got == "ok-without-table" {
 			failing = fmt.Sprintf("GOARCH %s (targets */%s): arch.GetInfo(%q) — what GetInfo(\"\") evaluates there — returns %s although arch.%s has no syscall table; "+
 				"expected an `unsupported arch` error", t.GOARCH, t.GOARCH, t.GOARCH, got, t.GoarchRow.Var)
 		}
